@@ -106,6 +106,10 @@ func init() {
 		c.nonFinite = true
 		premiseOps(c, core.PkgGrad, "Broadcast")
 		c.nonFinite = false
+		// MatMul / Dot expand a batch implicitly and their backward rules are MatMul / Dot products again: the sum over
+		// the copies is only the defined one if the contraction kernels meet their element specification (incl. at
+		// non-finite upstream gradients: 0·Inf is NaN, a skipped term changes the class of the sum)
+		premiseOps(c, core.PkgGrad, "MatMul", "Dot")
 		premiseWalk(c)
 		addOpsAssumptions(c)
 	})
@@ -277,6 +281,9 @@ func statelessPremise(c *Ctx, components bool) {
 		// as a tensor's own dims / index (the direct store into a CPUTensor field or a backward closure of the
 		// tensor packages) is the plain pattern of S5
 		if rule == "S4.write" && strings.Contains(detail, "package variable") {
+			return true
+		}
+		if c.aliasWrites && rule == "S4.write" && strings.Contains(detail, "internal/cputensor") {
 			return true
 		}
 		return rule == "S5.retain" && (strings.Contains(detail, "cputensor.CPUTensor") || strings.Contains(detail, "gradtrack."))
@@ -599,7 +606,13 @@ func valueOps(c *Ctx, id string, methods []string, extra func(c *Ctx)) {
 	if extra != nil {
 		extra(c)
 	}
+	// … and no write of the data layer lands in memory the running call did not allocate: the labelled instances give
+	// every operand exact-capacity rows, so an append that only reuses an operand's SPARE capacity (rows grown by an
+	// earlier Concat) is invisible to the store observer and visible to the provenance analysis
+	c.R.Rule("premise (operands stay intact, all capacities): S4 write provenance over the data layer (package cputensor) counts here as in C10")
+	c.aliasWrites = true
 	statelessPremise(c, false)
+	c.aliasWrites = false
 	c.R.Min("data.element_comparisons", 200)
 	c.R.NotDecide("shapes beyond the enumerated bound (the odometer/carry logic is exercised on every enumerated shape, not proven for all sizes); floating-point rounding")
 	addOpsAssumptions(c)
